@@ -144,7 +144,10 @@ Section Protocol.
         (if 0 <? cd (ch s)
          then [mkS (RSending (Nat.min k 1)) (ierr s) (set_cd (ch s) 0) (wr s) (doneq s) (mn s)]
          else [mkS (RSending k) (ierr s) (ch s) (wr s) (doneq s) (mn s)])
-        ++ [mkS (RErr k) (ierr s) (set_failed (ch s)) (wr s) (doneq s) (mn s)]   (* open/parse error *)
+        ++ (match k with
+            | S k' => [mkS (RErr k') (ierr s) (set_failed (ch s)) (wr s) (doneq s) (mn s)]
+            | O => []
+            end)   (* open/parse error: the failing batch is dropped, reading goes on with the next one *)
     | RErr k => if ierr s then [] else [mkS (RPoll k) true (ch s) (wr s) (doneq s) (mn s)]
     | RSending k =>
         match push_first (ch s) (Nat.eqb k 0) with
